@@ -72,7 +72,7 @@ for argv in cases:
 print(json.dumps(out))
 '''
 
-VALUE_OPTS = {"--strategy": ["minimize-around", "check-only", "minimize"], "--testcase": ["other.txt"],
+VALUE_OPTS = {"--strategy": ["minimize-around", "check-only", "minimize", "minimize-balanced", "minimize-collapse-brace"], "--testcase": ["other.txt"],
               "--tempdir": ["td"], "--min": ["2"], "--max": ["4"], "--repeat": ["always", "never"],
               "--chunk-size": ["2"], "--max-run-time": ["5"]}
 FLAGS = ["-c", "--char", "-l", "-j", "-s", "--attrs", "-v", "--repeat-first-round"]
@@ -80,7 +80,9 @@ SUFFIX_TOKENS = ["-c", "-j", "--strategy=check-only", "--min", "--", "4", "--tes
                  # words a response-file feature (argparse fromfile_prefix_chars) would expand or refuse
                  "@flags.rsp", "@nofile", "@"]
 
-STRATS = {"minimize": "Minimize", "minimize-around": "MinimizeSurroundingPairs", "check-only": "CheckOnly"}
+STRATS = {"minimize": "Minimize", "minimize-around": "MinimizeSurroundingPairs", "check-only": "CheckOnly",
+          "minimize-balanced": "MinimizeBalancedPairs", "minimize-collapse-brace": "CollapseEmptyBraces",
+          "replace-properties-by-globals": "ReplacePropertiesByGlobals", "replace-arguments-by-globals": "ReplaceArgumentsByGlobals"}
 ATOMS = {"-c": "TestcaseChar", "--char": "TestcaseChar", "-l": "TestcaseLine", "-j": "TestcaseJsStr",
          "-s": "TestcaseSymbol", "--attrs": "TestcaseAttrs"}
 
@@ -207,6 +209,11 @@ def run(ck: Check):
                     cmds.append((((ab,),), "yes.py", ("t.txt",)))
                 else:
                     cmds.append((((ab, val, form),), "yes.py", ("t.txt",)))
+        for strat in ("minimize", "minimize-around", "minimize-balanced", "minimize-collapse-brace",
+                      "replace-properties-by-globals", "replace-arguments-by-globals"):
+            cmds.append(((("--strategy", strat, "eq"), ("--min", "2", "sep"), ("--max", "4", "sep"), ("--repeat", "always", "sep")),
+                         "yes.py", ("--min", "8", "--max=16", "--repeat", "never", "-c", "t.txt")))
+            cmds.append(((("--repeat-first-round",), ("--max", "8", "eq"), ("--strategy", strat, "sep")), "yes.py", ("t.txt",)))
         for v in ("0", "1"):
             cmds.append(((("--max-run-time", v, "sep"),), "yes.py", ("t.txt",)))
             cmds.append(((("--strategy", "minimize-around", "eq"), ("--max-run-time", v, "eq")), "yes.py", ("t.txt",)))
